@@ -5,6 +5,7 @@ CONSTANTS
   GetW = 5
   LateT = 4
   Fixed_F20 = FALSE
+  Fixed_F26 = TRUE
   NackHorizon = 10
   Caps = {2}
   Ids = {1}
